@@ -12,6 +12,7 @@ import os
 import random
 import shutil
 import sqlite3
+import threading
 import urllib.parse
 from dataclasses import dataclass, field
 from pathlib import Path
@@ -167,7 +168,8 @@ class World:
         self.faults_fired: dict[str, int] = {}
         self.probes: dict[str, int] = {}
         self.requests = 0
-        self._last_exc: BaseException | None = None
+        self._exc_by_thread: dict[int, BaseException] = {}
+        self.preemptive = False       # second stage: connections that park at every statement (dsim.preempt)
         self.step_budget = 0
         self.request_wall_s = 60.0    # real-time watchdog: a HARNESS error, never a verdict
         boot.SECRETS.reseed(secrets_seed)
@@ -181,6 +183,9 @@ class World:
     def config(self) -> dict:
         cfg = json.loads(json.dumps(BASE_CONFIG))
         cfg["SQLALCHEMY_DATABASE_URI"] = f"sqlite:///{self.db_file}"
+        if self.preemptive:
+            from . import preempt
+            cfg["SQLALCHEMY_ENGINE_OPTIONS"] = preempt.ENGINE_OPTIONS
         return cfg
 
     def start(self) -> None:
@@ -200,7 +205,7 @@ class World:
         simclock.rescan()
 
     def _on_exception(self, sender, exception, **extra) -> None:
-        self._last_exc = exception
+        self._exc_by_thread[threading.get_ident()] = exception
 
     def stop(self) -> None:
         if self.app is None:
@@ -248,7 +253,7 @@ class World:
     # ------------------------------------------------------------------ WSGI driver
     def handle(self, actor: str, method: str, url: str, headers: dict[str, str] | None = None,
                body: bytes | None = None, jar: CookieJar | None = None,
-               fault: str | None = None, record: bool = True) -> Response:
+               fault: str | None = None, record: bool = True, threaded: bool = False) -> Response:
         """Execute one request against the current app object (atomic, zero simulated duration)."""
         from werkzeug.test import EnvironBuilder, run_wsgi_app
         if self.app is None:
@@ -274,9 +279,13 @@ class World:
             builder.close()
         environ["HTTP_HOST"] = host
         environ["REMOTE_ADDR"] = "10.0.0.1"
-        self._last_exc = None
+        self._exc_by_thread.pop(threading.get_ident(), None)
         self.requests += 1
-        status_code, resp_headers, data, exc = self._call(environ, run_wsgi_app)
+        if threaded:
+            # a request of a burst: runs on its own baton-passing thread (no signal based watchdog there)
+            status_code, resp_headers, data, exc = self._call_inner(environ, run_wsgi_app)
+        else:
+            status_code, resp_headers, data, exc = self._call(environ, run_wsgi_app)
         resp = Response(status=status_code, headers=resp_headers, body=data, exc=exc, fault=fault)
         if jar is not None:
             jar.update(resp.headers_all("Set-Cookie"), now_us)
@@ -325,7 +334,7 @@ class World:
             if close:
                 close()
         code = int(status.split(" ", 1)[0])
-        return code, [(str(k), str(v)) for k, v in headers], data, self._last_exc
+        return code, [(str(k), str(v)) for k, v in headers], data, self._exc_by_thread.pop(threading.get_ident(), None)
 
     def record(self, actor: str, method: str, url: str, status: int, body: bytes, fault: str | None) -> None:
         self.seq += 1
